@@ -173,6 +173,17 @@ func runCheck(prop, tier string, seed int, update bool, overlay map[string][]byt
 			if !hasProp(c, prop) {
 				continue
 			}
+			if selftest && selftestFuncs != nil {
+				hit := false
+				for _, f := range selftestFuncs {
+					if strings.Contains(c.Block.Key(), f) {
+						hit = true
+					}
+				}
+				if !hit {
+					continue
+				}
+			}
 			r := Verify(w, c)
 			// clauses restricted to other properties ("ensures @Cxx ...") are not part of this check
 			var keep []*Obligation
@@ -293,6 +304,9 @@ func runCheck(prop, tier string, seed int, update bool, overlay map[string][]byt
 		viols = append(viols, violation{reason: "vacuous", detail: "no obligations were generated for " + prop})
 	}
 	for _, exp := range led.Obligations {
+		if selftest && selftestFuncs != nil {
+			break // only some functions were verified
+		}
 		if !seenBase[exp] && loadErr == "" {
 			viols = append(viols, violation{reason: "missing", detail: "expected obligation is no longer generated: " + exp})
 		}
@@ -427,6 +441,11 @@ func runCheck(prop, tier string, seed int, update bool, overlay map[string][]byt
 		"not_decided":              notDecided,
 		"packages":                 dirs,
 		"explanation":              "every obligation is a separate SMT query (path condition and assumptions imply goal) generated from the type-checked AST of /repo's working tree; discharged counts queries answered unsat",
+	}
+	if tier == "thorough" && exit == 0 {
+		// must-fail changes of this property, applied in memory: the check has to report each
+		cov["must_fail_selftest"] = mutantsFor(prop)
+		ev["wall_s"] = time.Since(t0).Seconds()
 	}
 	ev["coverage"] = cov
 	ev["assumptions"] = as
